@@ -1,5 +1,6 @@
 """C10 -- bounded queue (cocls::limited_queue): back-pressure without losing or duplicating items."""
 import os
+import threading
 
 import vlib
 from framework import graph_replay
@@ -7,22 +8,66 @@ from framework import graph_replay
 SPEC = "LimitedQueue"
 ACTIONS = ["PushCS", "PushResolve", "PopCS", "PopCompletePush", "UnblockPushCS", "UnblockPushResolve",
            "UnblockPopCS", "UnblockPopResolve", "Destroy"]
+SEQ_ACTIONS = ACTIONS + ["PushThrowCS"]
 MERGE = r"(PushResolve|PopCompletePush|UnblockPushResolve|UnblockPopResolve)$"
 WORKERS = 4
 LIMITS = (1, 2, 3, 4)
 
 
-def proj(st):
-    """specification state -> what the replayer observes on the real limited_queue"""
-    npush = st["npush"]
-    live = [0] * (npush + 1)
-    for v in st["items"]:
-        live[v] += 1
-    for b in st["blocked"]:
-        live[b["v"]] += 1
-    for f in st["fut"]:
-        if f["st"] == "val":
-            live[f["v"]] += 1
+FORMS = ["one", "two", "copy", "move"]   # LimitedQueue.tla: Forms / FormOf(n), harness: FORMS[(n + shift) % 4]
+
+
+def item_of(n, shift):
+    """Item(n): what a direct T(args...) gives for the API form the n-th push uses (constructor that
+    built the original, its arguments, copy constructions on the way)"""
+    form = FORMS[(n + shift) % 4]
+    if form == "one":      # q.push(n)
+        return {"a": n, "b": 0, "copies": 0, "form": "1"}
+    if form == "two":      # q.push(n, n+50)
+        return {"a": n, "b": n + 50, "copies": 0, "form": "2"}
+    if form == "copy":     # Item x(n, n+50); q.push(x)
+        return {"a": n, "b": n + 50, "copies": 1, "form": "2"}
+    return {"a": n, "b": 0, "copies": 0, "form": "1"}   # Item x(n); q.push(std::move(x))
+
+
+def make_proj(shift):
+    def proj(st):
+        """specification state -> what the replayer observes on the real limited_queue"""
+        npush = st["npush"]
+        live = [0] * (npush + 1)
+        for v in st["items"]:
+            live[v] += 1
+        for b in st["blocked"]:
+            live[b["v"]] += 1
+        for f in st["fut"]:
+            if f["st"] == "val":
+                live[f["v"]] += 1
+        ret = st["ret"]
+        return {
+            "destroyed": st["destroyed"],
+            "limit": st["limit"],
+            "items": [item_of(v, shift) for v in st["items"]],
+            "waiters": list(st["waiters"]),
+            "blocked": [{"item": item_of(b["v"], shift), "push": b["push"]} for b in st["blocked"]],
+            "fut": [{"st": f["st"], "item": item_of(f["v"], shift) if f["st"] == "val" else None} for f in st["fut"]],
+            "pfut": list(st["pfut"]),
+            "live": live[1:],          # places holding each pushed value: queue, blocked, delivered
+            "size": len(st["items"]),  # limited_queue::size()
+            "npush": npush,
+            "npop": st["npop"],
+            "nthrow": st["nthrow"],
+            "ret": dict(ret) if isinstance(ret, dict) else {},
+        }
+    return proj
+
+
+def cproj(st):
+    """projection for the multi-thread replay (int items): per-thread fields, and a push future that the
+    implementation only creates in its return statement (hand-over) is not observable before"""
+    pfut = list(st["pfut"])
+    for t, pc in st["pc"].items():
+        if pc == "push_resolve":
+            pfut[st["hold"][t]["push"] - 1] = "unborn"
     ret = st["ret"]
     return {
         "destroyed": st["destroyed"],
@@ -31,27 +76,12 @@ def proj(st):
         "waiters": list(st["waiters"]),
         "blocked": [{"v": b["v"], "push": b["push"]} for b in st["blocked"]],
         "fut": [{"st": f["st"], "v": f["v"]} for f in st["fut"]],
-        "pfut": list(st["pfut"]),
-        "live": live[1:],          # places holding each pushed value: queue, blocked, delivered
-        "size": len(st["items"]),  # limited_queue::size()
-        "npush": npush,
+        "pfut": pfut,
+        "npush": st["npush"],
         "npop": st["npop"],
         "ret": dict(ret) if isinstance(ret, dict) else {},
+        "pend": {t: ("idle" if pc == "idle" else "resolve") for t, pc in st["pc"].items()},
     }
-
-
-def cproj(st):
-    """projection for the multi-thread replay: per-thread fields, and a push future that the
-    implementation only creates in its return statement (hand-over) is not observable before"""
-    d = proj(st)
-    del d["live"], d["size"]
-    pfut = list(d["pfut"])
-    for t, pc in st["pc"].items():
-        if pc == "push_resolve":
-            pfut[st["hold"][t]["push"] - 1] = "unborn"
-    d["pfut"] = pfut
-    d["pend"] = {t: ("idle" if pc == "idle" else "resolve") for t, pc in st["pc"].items()}
-    return d
 
 
 def conc_replay(ctx):
@@ -73,42 +103,83 @@ def conc_replay(ctx):
                "protocol itself is decided by C01/C02); futures polled, no coroutines")
 
 
+class Background:
+    """runs fn() on a thread; result() joins and re-raises"""
+    def __init__(self, fn):
+        self.out = self.exc = None
+
+        def body():
+            try:
+                self.out = fn()
+            except BaseException as e:   # noqa: B902 -- handed to the main thread
+                self.exc = e
+        self.th = threading.Thread(target=body, daemon=True)
+        self.th.start()
+
+    def result(self):
+        self.th.join()
+        if self.exc is not None:
+            raise self.exc
+        return self.out
+
+
 def run(ctx):
+    sd = os.path.join(vlib.VERIF, "spec", SPEC)
+    # the TLC-only run of the large concurrent model (2.) works in the background while the graphs of 1. are
+    # replayed; it does not touch ctx (accounted for below)
+    conc = None if ctx.quick else {"ExtraPop": 3, "MaxUnblockPush": 2}
+    conc_cfg = os.path.join(sd, "LimitedQueue_conc.cfg")
+    if conc:
+        os.makedirs(vlib.BUILD, exist_ok=True)
+        base = open(conc_cfg).read()
+        conc_cfg = os.path.join(vlib.BUILD, "%s_conc.cfg" % ctx.prop)
+        vlib.write_cfg(conc_cfg, base, conc)
+    conc_job = Background(lambda: vlib.run_tlc(sd, SPEC, conc_cfg, "%s_conc" % ctx.prop, workers=WORKERS, timeout=3000))
     # thorough: ASan/UBSan and the library's own asserts on (e.g. "Destroy of pending future")
     rp = vlib.compile_harness(vlib.VERIF + "/harness/limited_queue_replay.cpp", "limited_queue_replay",
                               sanitize=not ctx.quick, ndebug=ctx.quick)
-    sd = os.path.join(vlib.VERIF, "spec", SPEC)
 
     # 1. every history of one client over push/pop/unblock_push/unblock_pop/destroy within the bounds,
-    #    limits 1..4, every edge of the state graph replayed on the real limited_queue<int> and on
-    #    limited_queue<instance-counting item, access-checking containers, misuse-checking lock>,
-    #    consumers and producers polling or awaiting in coroutines
-    def hdr(k, st0):
-        # quick: one variant per scenario, rotating over the 8 combinations; thorough: that variant and
-        # its complement, so every edge runs with both item types, polled and awaited on both sides
-        names = [("int", "tracked"), ("poll", "coro"), ("poll", "coro")]
-        bits = [(k >> i) & 1 for i in range(3)]
-        vs = ["/".join(names[i][bits[i]] for i in range(3))]
-        if not ctx.quick:
-            vs.append("/".join(names[i][1 - bits[i]] for i in range(3)))
-        return {"limit": st0["limit"], "variants": vs}
-    deep = {} if ctx.quick else {"ExtraPush": 4, "ExtraPop": 3, "MaxUnblockPush": 3, "MaxUnblockPop": 2}
+    #    limits 1..4, every edge of the state graph replayed on the real limited_queue<Item> and on
+    #    limited_queue<Item, access-checking containers, misuse-checking lock> (Item records how it was built,
+    #    counts its instances and throws on demand), pushes through every public form, consumers and producers
+    #    polling or awaiting in coroutines
+    names = [("plain", "checked"), ("poll", "coro"), ("poll", "coro")]
+    # thorough bounds: limit+4 pushes, limit+3 pops, 2+2 unblocks, 1 throwing push
+    deep = {} if ctx.quick else {"ExtraPush": 4, "ExtraPop": 3, "MaxUnblockPush": 2, "MaxUnblockPop": 2}
+    if os.environ.get("C10_THROW_AT_HANDOVER"):
+        # only for a tree in which a throwing push no longer loses the waiting consumer (see LimitedQueue.tla)
+        deep["ThrowAtHandover"] = "TRUE"
     for limit in LIMITS:
-        # one TLC run per limit (small graphs, per-limit evidence)
+        # one TLC run per limit (small graphs, per-limit evidence); the rotation of the API forms over the pushes
+        # differs per limit and per seed, so every form meets the room, hand-over and blocked branch
+        shift = (limit + ctx.seed) % 4
+
+        def hdr(k, st0, shift=shift):
+            # quick: one variant per scenario, rotating over the 8 combinations; thorough: that variant and
+            # its complement, so every edge runs with both queue types, polled and awaited on both sides
+            bits = [(k >> i) & 1 for i in range(3)]
+            vs = ["/".join(names[i][bits[i]] for i in range(3))]
+            if not ctx.quick:
+                vs.append("/".join(names[i][1 - bits[i]] for i in range(3)))
+            return {"limit": st0["limit"], "shift": shift, "variants": vs}
         consts = dict(deep)
         consts["Limits"] = "{%d}" % limit
-        graph_replay(ctx, SPEC, SPEC, "LimitedQueue_seq.cfg", "seq_l%d" % limit, rp, proj,
-                     header_fn=hdr, merge_re=MERGE, must_take=ACTIONS, constants=consts,
-                     extra_random=200 if ctx.quick else 2000, tlc_kw={"workers": WORKERS})
+        consts["FormShift"] = shift
+        graph_replay(ctx, SPEC, SPEC, "LimitedQueue_seq.cfg", "seq_l%d" % limit, rp, make_proj(shift),
+                     header_fn=hdr, merge_re=MERGE, must_take=SEQ_ACTIONS, constants=consts,
+                     extra_random=200 if ctx.quick else 2000, tlc_kw={"workers": 2})
 
     # 2. all interleavings of 2 producer + 2 consumer threads at critical-section grain, limits 1..4 (TLC only)
-    conc = None if ctx.quick else {"ExtraPop": 3, "MaxUnblockPush": 2}
-    cfg = os.path.join(sd, "LimitedQueue_conc.cfg")
-    if conc:
-        base = open(cfg).read()
-        cfg = os.path.join(vlib.BUILD, "%s_conc.cfg" % ctx.prop)
-        vlib.write_cfg(cfg, base, conc)
-    res = ctx.tlc(SPEC, SPEC, cfg, "conc", workers=WORKERS, timeout=3000)
+    res = conc_job.result()
+    if res.error and not res.violation:
+        raise vlib.MachineryError("TLC failed on LimitedQueue (%s):\n%s" % (conc_cfg, res.error))
+    ctx.states += res.distinct
+    ctx.transitions += res.generated
+    ctx.models.append({"module": SPEC, "cfg": os.path.basename(conc_cfg), "distinct": res.distinct,
+                       "generated": res.generated, "depth": res.depth, "wall_s": round(res.wall, 1),
+                       "violation": res.violation,
+                       "coverage": {k: "%d:%d" % v for k, v in sorted(res.coverage.items())}})
     ctx.check_coverage(res, ACTIONS, "LimitedQueue/conc")
     if res.violation:
         ctx.tlc_violation(res, "LimitedQueue:LimitedQueue_conc.cfg")
